@@ -438,6 +438,64 @@ func sortedLoopRule(c *Ctx, id string) {
 		}
 	})
 	R.Check(dup, id, "nfs.lockInodes|duplicates skipped", P.Pos(acq.Pos()), "a number the transaction already owns is not acquired again (OwnInum guard)", "acquisition on the !OwnInum edge", "duplicate numbers make the request wait for its own lock for ever (e.g. RENAME A/B -> B/c asks for [A,B,B,c])")
+	// an inode that cannot be had (it vanished: a stale number) ends the bulk acquisition: the result of the
+	// acquisition is tested for nil and the nil side returns nil - the callers test for that, not for nil elements
+	{
+		derives := func(v ssa.Value) bool {
+			seen := map[ssa.Value]bool{}
+			var w func(v ssa.Value, d int) bool
+			w = func(v ssa.Value, d int) bool {
+				v = stripConv(v)
+				if v == nil || seen[v] || d > 6 {
+					return false
+				}
+				seen[v] = true
+				if v == ssa.Value(acq.(ssa.Value)) {
+					return true
+				}
+				if ph, ok := v.(*ssa.Phi); ok {
+					for _, e := range ph.Edges {
+						if w(e, d+1) {
+							return true
+						}
+					}
+				}
+				return false
+			}
+			return w(v, 0)
+		}
+		nilEnds := false
+		if _, isV := acq.(ssa.Value); isV && acqSc.Fn == f {
+			for _, br := range branches(f) {
+				if br.Cond.Op != token.EQL && br.Cond.Op != token.NEQ {
+					continue
+				}
+				for _, pr := range [][2]ssa.Value{{br.Cond.X, br.Cond.Y}, {br.Cond.Y, br.Cond.X}} {
+					if pr[0] == nil || pr[1] == nil || !isNilConst(pr[1]) || !derives(pr[0]) {
+						continue
+					}
+					side := br.True
+					if br.Cond.Op == token.NEQ {
+						side = br.False
+					}
+					// follow the straight line from the nil side to its return
+					blk := side
+					for i := 0; i < 4 && blk != nil; i++ {
+						last := blk.Instrs[len(blk.Instrs)-1]
+						if r, isR := last.(*ssa.Return); isR {
+							nilEnds = len(r.Results) > 0 && isNilConst(r.Results[0])
+							break
+						}
+						if _, isJ := last.(*ssa.Jump); !isJ {
+							break
+						}
+						blk = blk.Succs[0]
+					}
+				}
+			}
+			R.Check(nilEnds, id, "nfs.lockInodes|a vanished inode ends the acquisition", P.Pos(acq.Pos()), "the acquired inode is tested for nil and the nil side returns nil", "nil side returns nil", "a nil inode is put into the result: the callers test the slice, not its elements - the first use of the missing inode is a nil pointer dereference with the other inodes locked")
+		}
+	}
 	// failure inside the loop aborts (releases what was taken) and returns nil
 	for _, b := range f.Blocks {
 		r, ok := b.Instrs[len(b.Instrs)-1].(*ssa.Return)
